@@ -597,6 +597,87 @@ theorem columnSubset_msa_sscons_pairs (m : Msa) (mask : List Bool) (a : Abc) (wf
     have := hwf.ss_cons_ok (maskFilter mask ss') (by simp [Msa.colFilter, h2])
     exact this.1
 
+/-- ... and the same for the per-sequence SS line of EVERY sequence that has one -/
+theorem columnSubset_msa_ss_pairs (m : Msa) (mask : List Bool) (a : Abc) (wf : m.WF) (habc : m.abc = some a)
+    (hn : a.isNucleic = true) (hm : mask.length = m.alen) (i : Nat) (s : Bytes) (hs : m.ss[i]? = some (some s)) (ct : List Nat)
+    (h : wuss2ct s = some ct) (hok : (columnSubset m mask).st = .ok) :
+    ∃ s2 ps, (columnSubset m mask).msa.ss[i]? = some (some s2) ∧
+      breakPairs mask 1 s.length ct = tableOf (List.replicate (s.length + 1) 0) ps ∧
+      wuss2ct s2 = some (tableOf (List.replicate (s2.length + 1) 0) (relabelPs (newPos mask) ps)) := by
+  have hrok : (removeBrokenBasepairs m mask).st = .ok := by
+    by_cases hc : (removeBrokenBasepairs m mask).st = .ok
+    · exact hc
+    · rw [(columnSubset_nucleic m mask a wf habc hn hm).2 hc] at hok
+      exact absurd hok hc
+  obtain ⟨heq, _, _⟩ := (columnSubset_nucleic m mask a wf habc hn hm).1 hrok
+  obtain ⟨l', hl, hss⟩ := removeBrokenBasepairs_ss' m mask hrok
+  obtain ⟨s', h1, h2⟩ := (rbbSeqs_getElem mask m.ss l' hl i).1 s hs
+  have hlen : s.length = m.alen := (wf.ss_ok (some s) (List.mem_of_getElem? hs) s rfl).1
+  obtain ⟨ps, hp1, hp2⟩ := columnSubset_pairs_pk s s' mask ct h (by rw [hm, hlen]) h1
+  refine ⟨maskFilter mask s', ps, ?_, hp1, hp2⟩
+  rw [heq]
+  simp [Msa.colFilter, hss, h2]
+
+/-- DNA/RNA digital `esl_msa_MinimGaps` (the case `minimGaps_digital_is_filter` excludes): it is `esl_msa_ColumnSubset`
+    with the all-gap mask, i.e. base-pair repair followed by the column filter; when the repair succeeds the rows are the
+    filtered ORIGINAL rows (the repair rewrites SS lines only), the result is well formed and every row spells the same
+    ungapped sequence; when it fails its status is returned and no column is removed -/
+theorem minimGaps_digital_nucleic (m : Msa) (a : Abc) (gaps : Bytes) (considerRf : Bool) (wf : m.WF)
+    (hd : m.isDigital = true) (habc : m.abc = some a) (hn : a.isNucleic = true) :
+    minimGaps m gaps considerRf = columnSubset m (minimGapsDigitalMask m a considerRf) ∧
+    ((removeBrokenBasepairs m (minimGapsDigitalMask m a considerRf)).st = .ok →
+      (minimGaps m gaps considerRf).st = .ok ∧ (minimGaps m gaps considerRf).msa.WF ∧
+      (minimGaps m gaps considerRf).msa.rows = m.rows.map (maskFilter (minimGapsDigitalMask m a considerRf)) ∧
+      ∀ r ∈ m.rows, dealign (fun x => a.xIsGap x || a.xIsMissing x) (maskFilter (minimGapsDigitalMask m a considerRf) r)
+                    = dealign (fun x => a.xIsGap x || a.xIsMissing x) r) ∧
+    ((removeBrokenBasepairs m (minimGapsDigitalMask m a considerRf)).st ≠ .ok →
+      minimGaps m gaps considerRf = removeBrokenBasepairs m (minimGapsDigitalMask m a considerRf)) := by
+  have hl := minimGapsDigitalMask_length m a considerRf
+  have e : minimGaps m gaps considerRf = columnSubset m (minimGapsDigitalMask m a considerRf) := by
+    simp only [minimGaps, hd, habc, if_true]
+  refine ⟨e, fun hok => ?_, fun hbad => ?_⟩
+  · obtain ⟨heq, hwf, sc, ss', hform⟩ := (columnSubset_nucleic m _ a wf habc hn hl).1 hok
+    rw [e, heq]
+    refine ⟨rfl, hwf, by rw [hform]; rfl, fun r hr => ?_⟩
+    exact dealign_maskFilter _ _ r (by rw [hl, (wf.rows_ok r hr).1]) (minimGapsDigitalMask_removesOnlyGaps m a considerRf r hr)
+  · rw [e]; exact (columnSubset_nucleic m _ a wf habc hn hl).2 hbad
+
+/-! ## esl_msa_AddGS / AppendGR / AppendGC: the unparsed-markup constructors -/
+
+/-- `esl_msa_AddGS(msa, tag, sqidx, value)`: slot (`tag`, `sqidx`) becomes the value (or `old \n value` when the sequence
+    already has that tag), every other slot of every tag is unchanged, the table keeps one row per tag (a new tag is
+    appended at the end), every row keeps `nseq` slots -/
+theorem addGS_spec (n : Nat) (tbl : TagTable) (tag : Bytes) (i : Nat) (v : Bytes) (hi : i < n) (hw : tblWidth n tbl) :
+    (∀ tag' j, tblLookup tag' j (addGS n tbl tag i v) =
+        if tag' = tag ∧ j = i then gsStore v (tblLookup tag i tbl) else tblLookup tag' j tbl) ∧
+    tblWidth n (addGS n tbl tag i v) ∧
+    (addGS n tbl tag i v).map (·.1) = (if tag ∈ tbl.map (·.1) then tbl.map (·.1) else tbl.map (·.1) ++ [tag]) ∧
+    ((tbl.map (·.1)).Nodup → ((addGS n tbl tag i v).map (·.1)).Nodup) :=
+  ⟨fun tag' j => tblLookup_update n _ tag i hi tag' j tbl hw, tblUpdate_width n _ tag i tbl hw, tblUpdate_tags n _ tag i tbl,
+   tblUpdate_nodup n _ tag i tbl⟩
+
+/-- `esl_msa_AppendGR(msa, tag, sqidx, value)`: the value is appended to slot (`tag`, `sqidx`) (an empty value stores
+    nothing), everything else as for `AddGS` -/
+theorem appendGR_spec (n : Nat) (tbl : TagTable) (tag : Bytes) (i : Nat) (v : Bytes) (hi : i < n) (hw : tblWidth n tbl) :
+    (∀ tag' j, tblLookup tag' j (appendGR n tbl tag i v) =
+        if tag' = tag ∧ j = i then grStore v (tblLookup tag i tbl) else tblLookup tag' j tbl) ∧
+    tblWidth n (appendGR n tbl tag i v) ∧
+    (appendGR n tbl tag i v).map (·.1) = (if tag ∈ tbl.map (·.1) then tbl.map (·.1) else tbl.map (·.1) ++ [tag]) ∧
+    ((tbl.map (·.1)).Nodup → ((appendGR n tbl tag i v).map (·.1)).Nodup) :=
+  ⟨fun tag' j => tblLookup_update n _ tag i hi tag' j tbl hw, tblUpdate_width n _ tag i tbl hw, tblUpdate_tags n _ tag i tbl,
+   tblUpdate_nodup n _ tag i tbl⟩
+
+/-- `esl_msa_AppendGC`: a new tag gets a new line at the end of the table -/
+theorem appendGC_new (tbl : List (Bytes × Bytes)) (tag v : Bytes) (h : tag ∉ tbl.map (·.1)) :
+    appendGC tbl tag v = tbl ++ [(tag, v)] := by
+  unfold appendGC
+  have : tbl.findIdx? (fun t => t.1 == tag) = none := by
+    rw [List.findIdx?_eq_none_iff]
+    intro t ht
+    simp only [beq_iff_eq, Bool.not_eq_true, beq_eq_false_iff_ne, ne_eq]
+    intro e; exact h (List.mem_map.2 ⟨t, ht, e⟩)
+  rw [this]
+
 /-! ## esl_msa_Compare: the equality test other checks use as an oracle -/
 
 /-- `esl_msa_Compare(a1, a2)` returns `eslOK` IF AND ONLY IF the two alignments agree in every field its documentation
